@@ -41,6 +41,17 @@ fn targets() -> Vec<String> {
     ]
 }
 
+/// request header names with a meaning of their own somewhere (none of them touches framing,
+/// persistence or Expect here: those are varied by the checks that own them)
+const WELL_KNOWN: &[&str] = &[
+    "Accept", "Accept-Charset", "Accept-Encoding", "Accept-Language", "Accept-Datetime", "Access-Control-Request-Headers",
+    "Access-Control-Request-Method", "Authorization", "Cache-Control", "Content-Encoding", "Content-Language", "Content-Location",
+    "Content-MD5", "Content-Type", "Cookie", "Cookie2", "Set-Cookie", "Date", "DNT", "Forwarded", "From", "If-Match", "If-Modified-Since",
+    "If-None-Match", "If-Range", "If-Unmodified-Since", "Link", "Max-Forwards", "Origin", "Pragma", "Prefer", "Proxy-Authorization",
+    "Range", "Referer", "Sec-WebSocket-Key", "Sec-WebSocket-Protocol", "Trailer", "User-Agent", "Vary", "Via", "Warning", "X-Forwarded-For",
+    "X-Forwarded-Host", "X-Forwarded-Proto", "X-Requested-With", "X-Http-Method-Override", "Keep-Alive", "Proxy-Connection", "Server",
+];
+
 fn names(tier: Tier) -> Vec<String> {
     let mut v: Vec<String> = vec!["Host".into(), "X-A".into(), "x-a".into()];
     if full(tier) {
@@ -141,6 +152,20 @@ fn heads(tier: Tier) -> Vec<(Vec<u8>, bool)> {
                 v10,
             ));
         }
+    }
+    // well-known request header names, each three times in one head (as sent, lower case, upper
+    // case, another header in between): names a library might know how to combine or dedupe
+    for n in WELL_KNOWN {
+        let (m, t, v10) = rl(&mut k);
+        let lines = vec![
+            format!("{}: a=1", n),
+            "X-Between: y".to_string(),
+            format!("{}: b=2, c", n.to_ascii_lowercase()),
+            format!("{}:c=3; d", n.to_ascii_uppercase()),
+        ];
+        out.push((head(m, &t, if v10 { "1.0" } else { "1.1" }, &lines), v10));
+        let (m, t, v10) = rl(&mut k);
+        out.push((head(m, &t, if v10 { "1.0" } else { "1.1" }, &[format!("{}: a=1", n), format!("{}: a=1", n)]), v10));
     }
     if deep(tier) {
         // every header list of length 3 over a reduced atom set
@@ -284,7 +309,7 @@ impl Check for C02 {
     }
     fn rule(&self, tier: Tier) -> String {
         format!(
-            "request heads from the RFC 7230 grammar: every request line (14 methods incl. case variants and an all-tchar token x 7 targets incl. asterisk, absolute-form, all visible ASCII, 1100 bytes x versions 1.0/1.1) with 2-3 header lists; every header list of length 1 and 2 over {} atoms (names {:?}... x values x surrounding OWS) with request lines round-robin; lists of 3/8/63/64 fields; 10 targets in every form (absolute, authority, asterisk, origin, look-alikes) x 8 Host header sets (absent, other host, same, other case, other port, repeated, empty) x GET/OPTIONS/CONNECT; heads of exactly 1023..2049 bytes; {} heads in {} keep-alive connections of up to 8 requests, and again on connections of 1100 requests (quick: one, thorough: all), x peer kinds TCP-like/UNIX-like; each delivered head compared field by field with the generator's abstract request (method, target, version, header order/multiplicity/values after OWS removal, peer address); every case is distinct and non-trivial",
+            "request heads from the RFC 7230 grammar: every request line (14 methods incl. case variants and an all-tchar token x 7 targets incl. asterisk, absolute-form, all visible ASCII, 1100 bytes x versions 1.0/1.1) with 2-3 header lists; every header list of length 1 and 2 over {} atoms (names {:?}... x values x surrounding OWS) with request lines round-robin; lists of 3/8/63/64 fields; 49 well-known request header names (Accept .. X-Requested-With, Cookie, Set-Cookie, Forwarded, Via ...), each three times in one head in three spellings with another header in between, and twice with the same value; 10 targets in every form (absolute, authority, asterisk, origin, look-alikes) x 8 Host header sets (absent, other host, same, other case, other port, repeated, empty) x GET/OPTIONS/CONNECT; heads of exactly 1023..2049 bytes; {} heads in {} keep-alive connections of up to 8 requests, and again on connections of 1100 requests (quick: one, thorough: all), x peer kinds TCP-like/UNIX-like; each delivered head compared field by field with the generator's abstract request (method, target, version, header order/multiplicity/values after OWS removal, peer address); every case is distinct and non-trivial",
             atoms(tier).len(), names(tier).iter().map(|n| if n.len() > 20 { "<1100-byte name>".to_string() } else { n.clone() }).collect::<Vec<_>>(),
             heads(tier).len(), packs(tier).len()
         )
